@@ -375,10 +375,12 @@ def prove_scenario(scn, *, seed=0, crosscheck=2, max_paths=4000, timeout_ms=1000
             num_claims = scn(MkNum(env))
         except Infeasible:
             continue
-        if len(num_claims) != len(claims):
-            raise RuntimeError("cross-check: symbolic and concrete runs returned different claim lists")
-        for cs, cn in zip(claims, num_claims):
-            if cs[0] == "eq":
+        by_name = {c[1]: c for c in num_claims}
+        for cs in claims:
+            cn = by_name.get(cs[1])
+            if cn is None:
+                raise RuntimeError("cross-check: claim %s missing from the concrete run" % cs[1])
+            if cs[0] == "eq" and cn[0] == "eq":
                 Ls, _ = _flat(cs[2])
                 Ln, _ = _flat(cn[2])
                 Rn, _ = _flat(cn[3])
